@@ -503,6 +503,13 @@ def run(ctx, rep):
         run_cases(ctx, rep, cases[lo:lo + 20000])
     rep.notes.append(f'{len(cases)} cases; small statements exhaustive x '
                      f'{"2 rotating" if ctx.tier == "quick" else "all"} catalogue layouts')
+    # whole-script tie: the composed parser model (Lexer ∘ Parser, lean/FsicModel/Pipeline.lean) against the real
+    # parse_model — every symbol's (name, type, lags, leads, equation, code) or the exception class, exactly
+    import pipeline_common
+    if ctx.tier == 'quick':
+        pipeline_common.run(ctx, rep, 120 * ctx.scale, 2, 800 * ctx.scale)
+    else:
+        pipeline_common.run(ctx, rep, 2500 * ctx.scale, 6, 40000 * ctx.scale)
     rep.exhaustive = False
 
 
